@@ -24,20 +24,20 @@ META = {
     "Space A (lexer-centric): 4 contexts x every fault position in 2-6 line skeletons x 4 line-break forms x "
     "trim_blocks/lstrip_blocks x 16 whitespace-control settings of the neighbouring and the faulty tag x 13 preceding "
     "multi-line constructs (comment, raw, string literal, expression, tag; own line or glued to the fault line) x 7 "
-    "fault forms (1 863 680 cases).  Space B (compiler/debug-centric): 30 nesting contexts (blocks, overridden blocks, super(), macros, "
+    "fault forms (1 863 680 cases).  Space B (compiler/debug-centric): 32 nesting contexts (blocks, overridden blocks, super(), macros, "
     "call blocks, loops, filtered loops, conditionals, set/filter blocks, includes, imports, parents, two-level nestings) x positions "
-    "x 2 line-break forms x 4 flag settings (trim+lstrip, enable_async) x 4 whitespace settings x 3 preceding constructs x 10 fault forms x 2 filler kinds (constant-folded / variable; 1 152 000 cases).  Space C (expression / tag-argument faults): 9 contexts x "
+    "x 2 line-break forms x 4 flag settings (trim+lstrip, enable_async) x 4 whitespace settings x 3 preceding constructs x 10 fault forms x 2 filler kinds (constant-folded / variable; 1 228 800 cases).  Space C (expression / tag-argument faults): 10 contexts (incl. a template rendered by a global called from another template) x "
     "positions x 45 forms with the raising call as an operand of every operator, comparison, conditional arm, filter / test argument, "
-    "literal item, subscript and call argument directly in an output tag, plus 22 forms with the raising call in the tag that opens a "
+    "literal item, subscript and call argument directly in an output tag, plus 46 forms with the raising call (or a generated-code error: namespace check, filter/test unknown at compile time) in the tag that opens a "
     "construct or branch (elif condition, else / for-else body, loop filter, macro and call-block defaults, call argument, with / "
-    "set values, filter-block and set-block filter arguments, include / import target, autoescape argument) x sync/async x 2 "
-    "preceding constructs x 2 filler kinds (24 120 quick, 1 157 760 thorough).  "
+    "set values, filter-block and set-block filter arguments, include / import target, autoescape argument, trans variables, do, debug, caller arguments) x sync/async x 2 "
+    "preceding constructs x 2 filler kinds (36 400 quick, 1 747 200 thorough).  "
     "Runtime faults: the innermost traceback frame whose code filename is a template filename must be (file of the "
     "fault, line of the fault) and the exception must be the very object raised.  Syntax faults: TemplateSyntaxError "
     "lineno/name/filename and the synthetic traceback frame must be that position.",
     "note": "Templates come from a FunctionLoader that supplies a distinct file name per template.  Faults are single-line "
     "constructs (plus two syntax faults whose offending token is on the line after the tag start).  Bounds: quick "
-    "skeletons of 2-3 lines, 2 contexts / 2 flag settings / 8 whitespace settings / 4 fault forms in space A, 2 whitespace settings in space B (33 280 + 144 000 "
+    "skeletons of 2-3 lines, 2 contexts / 2 flag settings / 8 whitespace settings / 4 fault forms in space A, 2 whitespace settings in space B (33 280 + 153 600 "
     "cases), thorough 2-6 lines; not a full cross product of all dimensions (two sub-spaces, see text).",
     "design_ref": "DESIGN.md §4 C35",
 }
@@ -54,6 +54,13 @@ FILLERS = {"const": FILL, "var": "text{{ t }}"}
 class Boom(Exception):
     def __repr__(self):
         return "Boom()"
+
+
+class BadRepr:
+    """its repr raises: makes {% debug %} (which pretty-prints the context) fail"""
+
+    def __repr__(self):
+        return boom()
 
 
 LAST = [None]
@@ -151,9 +158,36 @@ FAULTS.update({
     "t-for-iter-after": ("runtime", ["{% if true %}", "a", "{% endif %}", "{%{L} for j in boom() {R}%}", "{% endfor %}"], 3),
     "t-if-cond-after": ("runtime", ["{% for j in [1] %}", "a", "{% endfor %}", "{%{L} if boom() {R}%}", "b", "{% endif %}"], 3),
     "t-autoescape-arg": ("runtime", ["{% set q = 1 %}", "{%{L} autoescape boom() {R}%}", "x", "{% endautoescape %}"], 1),
+    # i18n / do / debug extensions (the environment gets them for these forms only)
+    "t-trans-callvar": ("runtime", ["{% set q = 1 %}", "{%{L} trans v=boom() {R}%}x {{ v }}{% endtrans %}"], 1),
+    "t-trans-callvar-plural": ("runtime", ["{% set q = 1 %}", "{%{L} trans n=boom() {R}%}x{% pluralize %}y{% endtrans %}"], 1),
+    "t-trans-second-var": ("runtime", ["{% set q = 1 %}", "{%{L} trans a=1, v=boom() {R}%}{{ a }}{{ v }}{% endtrans %}"], 1),
+    "t-trans-count": ("runtime", ["{% set q = 1 %}", "{%{L} trans count=boom() {R}%}x{% pluralize %}{{ count }}{% endtrans %}"], 1),
+    "t-trans-var-expr": ("runtime", ["{% set q = 1 %}", "{%{L} trans v=1 + boom() {R}%}x {{ v }}{% endtrans %}"], 1),
+    "t-trans-multiline": ("runtime", ["{% set q = 1 %}", "{%{L} trans v=boom() {R}%}", "x {{ v }}", "{% endtrans %}"], 1),
+    "t-do": ("runtime", ["{% set q = 1 %}", "{%{L} do boom() {R}%}"], 1),
+    "t-do-expr": ("runtime", ["{% set q = 1 %}", "{%{L} do [1].append(boom()) {R}%}"], 1),
+    "t-debug": ("runtime", ["{% set q = 1 %}", "{%{L} debug {R}%}"], 1),
+    # errors raised by generated code itself
+    "t-nsref-check": ("runtime-tre", ["{% set q = 1 %}", "{%{L} set d.x = 1 {R}%}"], 1),
+    "t-nsref-tuple-check": ("runtime-tre", ["{% set q = 1 %}", "{%{L} set q, d.x = 1, 2 {R}%}"], 1),
+    "t-nsref-block-check": ("runtime-tre", ["{% set q = 1 %}", "{%{L} set d.x {R}%}v{% endset %}"], 1),
+    "t-unknown-filter-if": ("runtime-tre", ["{% set q = 1 %}", "{% if true %}", "{{{L} 1|nosuchfilter {R}}}", "{% endif %}"], 2),
+    "t-unknown-filter-else": ("runtime-tre", ["{% if false %}", "a", "{% else %}", "b{{ t }}", "{{{L} t|nosuchfilter(1) {R}}}", "{% endif %}"], 4),
+    "t-unknown-test-elif": ("runtime-tre", ["{% if false %}", "a", "{% elif true %}", "{{{L} 1 is nosuchtest {R}}}", "{% endif %}"], 3),
+    "t-unknown-filter-condexpr": ("runtime-tre", ["{% set q = 1 %}", "{{{L} (1|nosuchfilter) if true else 2 {R}}}"], 1),
+    "t-unknown-test-condexpr": ("runtime-tre", ["{% set q = 1 %}", "{{{L} 1 if (t is nosuchtest) else 2 {R}}}"], 1),
+    # more tag arguments
+    "t-caller-arg": ("runtime", ["{% macro q() %}", "a{{ t }}", "{{{L} caller(boom()) {R}}}", "{% endmacro %}", "{% call(a) q() %}x{% endcall %}"], 2),
+    "t-call-kwarg": ("runtime", ["{% macro q(a) %}{{ caller() }}{% endmacro %}", "{% set z = 1 %}", "{%{L} call q(a=boom()) {R}%}", "x", "{% endcall %}"], 2),
+    "t-filter-block-chain": ("runtime", ["{% set q = 1 %}", "{%{L} filter upper|replace('a', boom()) {R}%}", "x", "{% endfilter %}"], 1),
+    "t-from-import-target": ("runtime", ["{% set q = 1 %}", "{%{L} from boom() import mm {R}%}"], 1),
+    "t-include-list": ("runtime", ["{% set q = 1 %}", "{%{L} include ['nope', boom()] ignore missing {R}%}"], 1),
+    "t-macro-default-2": ("runtime", ["{% set q = 1 %}", "{%{L} macro q(a, b=boom()) {R}%}", "x", "{% endmacro %}", "{{ q(1) }}"], 1),
+    "t-print": ("runtime", ["{% set q = 1 %}", "{%{L} print 1, boom() {R}%}"], 1),
 })
 FAULTS_C = [k for k in FAULTS if k.startswith(("x-", "t-"))]
-CONTEXTS_C = ["top", "block", "for", "macro", "if", "for-filter", "include", "child-block", "call"]
+CONTEXTS_C = ["top", "block", "for", "macro", "if", "for-filter", "include", "child-block", "call", "nested-render"]
 
 FN = "/c35/%s.html"
 
@@ -227,6 +261,16 @@ def _ctx_import_top(body, O, C):
     return ({"lib": [FILL] + body, "main": [FILL, FILL, FILL, "{% import 'lib' as lib %}"]}, "main", "lib", 1)
 
 
+def _ctx_nested_render(body, O, C):
+    # template B (inc) is rendered by a global called from template A (main): two traceback rewrites
+    return ({"inc": [FILL, TAIL] + list(body), "main": [FILL, TAIL, TAIL, TAIL, TAIL, TAIL, "{{ partial('inc') }}", FILL]}, "main", "inc", 2)
+
+
+def _ctx_nested_render_block(body, O, C):
+    return ({"inc": [TAIL, "{% block b " + O + "%}"] + list(body) + ["{%" + C + " endblock %}", TAIL],
+             "main": ["{% macro w() %}", TAIL, "{{ partial('inc') }}", "{% endmacro %}", "{{ w() }}"]}, "main", "inc", 2)
+
+
 CONTEXTS = {
     "top": _ctx_top,
     "block": _wrap("{% block b {O}%}", "{%{C} endblock %}", [TAIL]),
@@ -265,6 +309,8 @@ CONTEXTS = {
     "for-filter-in-macro": lambda body, O, C: ({"main": ["{% macro m() %}", "{% for i in [1, 2] if i " + O + "%}"] + body
                                                 + ["{%" + C + " endfor %}", TAIL, "{% endmacro %}", "{{ m() }}"]}, "main", "main", 2),
     "for-filter-recursive": _wrap("{% for i in [1, 2] if i recursive {O}%}", "{%{C} endfor %}", [TAIL]),
+    "nested-render": _ctx_nested_render,
+    "nested-render-block": _ctx_nested_render_block,
     "macro-for": lambda body, O, C: ({"main": ["{% macro m() %}{% for i in [1] " + O + "%}"] + body
                                       + ["{%" + C + " endfor %}{% endmacro %}", "{{ m() }}"]}, "main", "main", 1),
 }
@@ -311,6 +357,8 @@ def build(case):
         kw["trim_blocks"] = True
     if "l" in flags:
         kw["lstrip_blocks"] = True
+    if fault.startswith(("t-trans", "t-do", "t-debug")):
+        kw["extensions"] = ["jinja2.ext.i18n", "jinja2.ext.do", "jinja2.ext.debug"]
     if "a" in flags:
         # Template.render of an async environment drives render_async through asyncio.run
         kw["enable_async"] = True
@@ -327,6 +375,18 @@ def make_env(srcs, kw):
 
     env = jinja2.Environment(loader=jinja2.FunctionLoader(load), **kw)
     env.globals["boom"] = boom
+    env.globals["d"] = {}  # a plain dict: attribute assignment through it must fail the namespace check
+    env.globals["bad"] = BadRepr()
+    if "jinja2.ext.i18n" in kw.get("extensions", ()):
+        env.install_null_translations()
+    # nested rendering ("render_partial" pattern): a global that renders another template of the environment
+    if kw.get("enable_async"):
+        async def partial(name):
+            return await env.get_template(name).render_async()
+    else:
+        def partial(name):
+            return env.get_template(name).render()
+    env.globals["partial"] = partial
     return env
 
 
@@ -357,6 +417,11 @@ def observe(case):
         obs = ("runtime",) + (fr[-1] if fr else ("no-template-frame", 0))
         if e is not LAST[0]:
             obs += ("exception-object=other",)
+        return (kind, want_file, line), obs, kind, srcs
+    except jinja2.TemplateRuntimeError as e:
+        # raised by generated code itself (namespace check, filter/test unknown at compile time)
+        fr = template_frames(e.__traceback__, fnames)
+        obs = ("runtime-tre",) + (fr[-1] if fr else ("no-template-frame", 0))
         return (kind, want_file, line), obs, kind, srcs
     except jinja2.TemplateSyntaxError as e:
         fr = template_frames(e.__traceback__, fnames)
